@@ -91,6 +91,9 @@ struct Delivery {
 enum TcpOutcome {
     Connected,
     Refused,
+    /// The hop limit expired at a router: the kernel reports the ICMP error on the connecting socket
+    /// (EHOSTUNREACH, with the router's address in the error queue) instead of the raw ICMP socket seeing it.
+    Unreach(u16),
 }
 
 #[derive(Debug, Clone)]
@@ -429,6 +432,14 @@ impl World {
                     (d, dup)
                 }
             };
+            if let Some(sock) = tcp_sock {
+                if !hop.du && self.sc.net.tcp_sockerr_pct > 0 && self.rng.random_range(0..100) < self.sc.net.tcp_sockerr_pct {
+                    if let Some(st) = self.tcp.get_mut(&sock) {
+                        st.ready_at = Some((now + delay, TcpOutcome::Unreach(hop.addr)));
+                    }
+                    return;
+                }
+            }
             let quoted = self.quote(&datagram, &path, usize::from(ttl), &hop);
             let from = addr_of(hop.addr, self.sc.fam);
             let bytes = self.icmp_error(from, !hop.du, &quoted, &hop);
@@ -958,6 +969,8 @@ pub struct SimSocket {
     peer: Option<SocketAddr>,
     /// A TCP probe: a non-blocking connect was started on this socket.
     opened: bool,
+    /// The address in the socket's error queue (the router that reported the expired hop limit).
+    err_addr: Option<IpAddr>,
 }
 
 /// The lifetime of a TCP probe's socket ends when the channel lets go of it (taken, expired, evicted or torn down).
@@ -997,6 +1010,7 @@ impl SimSocket {
                 bound: None,
                 peer: None,
                 opened: false,
+                err_addr: None,
             })
         })
     }
@@ -1101,6 +1115,7 @@ impl Socket for SimSocket {
                 let (ready, out) = match w.tcp.get(&self.id).and_then(|s| s.ready_at.clone()) {
                     Some((t, TcpOutcome::Connected)) => (t as i64, "syn"),
                     Some((t, TcpOutcome::Refused)) => (t as i64, "rst"),
+                    Some((t, TcpOutcome::Unreach(_))) => (t as i64, "unreach"),
                     None => (-1, "none"),
                 };
                 let t = w.now();
@@ -1210,12 +1225,17 @@ impl Socket for SimSocket {
                     w.log_delivery(&Origin::Resp(st.k), target, true, "rst", 0);
                     Ok(Some(SocketError::ConnectionRefused))
                 }
+                Some((_, TcpOutcome::Unreach(router))) => {
+                    w.log_delivery(&Origin::Resp(st.k), i64::from(router), false, "te", 0);
+                    self.err_addr = Some(addr_of(router, w.sc.fam));
+                    Ok(Some(SocketError::HostUnreachable))
+                }
                 None => Ok(Some(SocketError::Other(io_err("other")))),
             }
         })
     }
     fn icmp_error_info(&mut self) -> IoResult<IpAddr> {
-        Ok(IpAddr::V4(Ipv4Addr::UNSPECIFIED))
+        Ok(self.err_addr.unwrap_or(IpAddr::V4(Ipv4Addr::UNSPECIFIED)))
     }
 }
 
